@@ -40,7 +40,7 @@ def run(res, tier, seed, replay):
         elif "trace" in r and not (r["trace"].get("db") and r["trace"].get("run") and r["trace"].get("lenient")):
             res.tie_break(f"trace inclusion (C01_trace_sound) no longer checks for a run in {r['stream']}: checker verdict "
                           f"{r['trace']}; the returned solution itself is valid", tc.trace_replay(r))
-        elif not enctie.ok(r, ("db", "trail", "final")):
+        elif not enctie.ok(r, ("db", "done", "trail", "final")):
             res.tie_break(f"encoder correspondence no longer checks for a run in {r['stream']}: the clause database / trail / "
                           f"encoded set of the implementation differs from the encoder model (theorems C01_encoder_*): {r['enc']}; "
                           f"the returned solution itself is valid", enctie.replay(r))
